@@ -182,37 +182,65 @@ pub fn handle(op: &str, a: &[&str]) -> Option<Resp> {
                 // every paragraph and field kept; values keep their non-blank lines up to
                 // surrounding whitespace (no formatter / identity formatter) or are exactly the
                 // formatter's output
-                let mut want: Vec<Items> = before.content.clone();
-                if c.pcmp == "p" && *level == "d" {
-                    want.sort_by(|a, b| {
-                        let ka = a.iter().find(|f| f.0 == "Package").map(|f| f.1.clone());
-                        let kb = b.iter().find(|f| f.0 == "Package").map(|f| f.1.clone());
-                        ka.cmp(&kb)
-                    });
+                // every paragraph and field kept: values keep their non-blank lines up to
+                // surrounding whitespace (no formatter / identity) or are the formatter's output
+                type NF = (String, Vec<String>);
+                let norm_before: Vec<Vec<NF>> = before
+                    .content
+                    .iter()
+                    .map(|p| {
+                        p.iter()
+                            .map(|(k, v)| {
+                                let v2 = if c.fmt == "u" { fmt_comma_lines(k, v) } else { v.clone() };
+                                (k.clone(), nb_trim(&v2))
+                            })
+                            .collect()
+                    })
+                    .collect();
+                let norm_after: Vec<Vec<NF>> =
+                    o1.content.iter().map(|p| p.iter().map(|(k, v)| (k.clone(), nb_trim(v))).collect()).collect();
+                let sort_entries = c.ecmp != "n" && *level != "e" && c.fmt != "x";
+                let sort_paras = c.pcmp == "p" && *level == "d";
+                let canon = |ps: &Vec<Vec<NF>>| -> Vec<Vec<NF>> {
+                    let mut ps: Vec<Vec<NF>> = ps
+                        .iter()
+                        .map(|p| {
+                            let mut p = p.clone();
+                            if sort_entries {
+                                p.sort();
+                            }
+                            p
+                        })
+                        .collect();
+                    if sort_paras {
+                        ps.sort();
+                    }
+                    ps
+                };
+                if canon(&norm_before) != canon(&norm_after) {
+                    fail = Some(format!("content changed: {:?} -> {:?}", before.content, o1.content));
                 }
-                if *level != "e" && c.fmt != "x" {
-                    for p in want.iter_mut() {
-                        match c.ecmp.as_str() {
-                            "k" => p.sort_by(|a, b| a.0.cmp(&b.0)),
-                            "v" => p.sort_by(|a, b| a.1.cmp(&b.1)),
-                            _ => {}
+                // ... in the requested order (an order of what is written out)
+                if fail.is_none() && sort_entries {
+                    for p in &o1.content {
+                        let ok = match c.ecmp.as_str() {
+                            "k" => p.windows(2).all(|w| w[0].0 <= w[1].0),
+                            _ => p.windows(2).all(|w| w[0].1 <= w[1].1),
+                        };
+                        if !ok {
+                            fail = Some(format!("entries not in the requested order: {:?}", p));
                         }
                     }
                 }
-                let norm = |c1: &Vec<Items>, formatted: bool| -> Vec<Vec<(String, Vec<String>)>> {
-                    c1.iter()
-                        .map(|p| {
-                            p.iter()
-                                .map(|(k, v)| {
-                                    let v2 = if formatted && c.fmt == "u" { fmt_comma_lines(k, v) } else { v.clone() };
-                                    (k.clone(), nb_trim(&v2))
-                                })
-                                .collect()
-                        })
-                        .collect()
-                };
-                if norm(&o1.content, false) != norm(&want, true) {
-                    fail = Some(format!("content changed: {:?} -> {:?}", want, o1.content));
+                if fail.is_none() && sort_paras {
+                    let keys: Vec<Option<String>> = o1
+                        .content
+                        .iter()
+                        .map(|p| p.iter().find(|f| f.0 == "Package").map(|f| f.1.clone()))
+                        .collect();
+                    if !keys.windows(2).all(|w| w[0] <= w[1]) {
+                        fail = Some(format!("paragraphs not in the requested order: {:?}", keys));
+                    }
                 }
                 // comments kept, each on a line of its own
                 if fail.is_none() {
